@@ -38,7 +38,8 @@ ASSUMPTIONS = ["float32 rounding in cell binning, ceil(radius/cell_size) and sq_
                "triclinic periodic boxes: minimum-image theorem only for r <= half the smallest box height (HalfHeight); beyond it exactness w.r.t. the 27 images only (known finding for strongly skewed cells); float triclinic boxes (62..118 deg) by oracle",
                "memory safety of the malloc'd pointer cells is not a theorem; only the index invariant "
                "0 <= cell index < cell_count is proved on the ℚ model (C14_cells_in_grid)",
-               "result-buffer length must stay below 2^31 (hypothesis NoOverflow / Guard.fits); beyond it the code fails (known finding)"]
+               "result-buffer length must stay below 2^31 (Guard.fits) or wrap to a still sufficient positive length; otherwise the code fails or truncates (known findings, defect theorems)",
+               "radius / cell size beyond int32: scalar radii are refused (OverflowError), per-query radii are silently wrong (known findings); theorems carry ceil(r/cs) < 2^31"]
 LEVEL_TEXT = ("Lean 4 proofs over ℚ for all inputs: window sufficiency with C truncation for any query point, "
               "get_atoms = {d² ≤ r²} as a set (indices ⇔ masks, scalar ⇔ per-query radii, selection), cell queries ⊇ "
               "Chebyshev ball, adjacency symmetric = thresholded distances. Periodic mode, general invertible box matrix "
